@@ -159,10 +159,23 @@ ATTR_PAYLOADS = ('oneof',
                  ('obj', 'kmip.core.messages.payloads.SetAttributeResponsePayload', {}),
                  ('obj', 'kmip.core.messages.payloads.ModifyAttributeResponsePayload', {}),
                  ('obj', 'kmip.core.messages.payloads.ActivateResponsePayload', {}))
-ITEM_V = ('obj', 'kmip.core.messages.messages.ResponseBatchItem',
-          {'operation': V(('enum', 'kmip.core.enums.Operation')), 'result_status': V(('enum', 'kmip.core.enums.ResultStatus')),
+def _operation_echoed_on_success(I, item):
+    # KMIP: a response batch item echoes the operation of the request item it answers; a failure
+    # reported at message level (authentication, unparsable request, oversize) has none
+    import z3
+    from kmip.core import enums
+    if item.fields.get('operation') is not None:
+        return True
+    st = item.fields['result_status'].fields['value']
+    return I.truth(I.models.equals(I, st, enums.ResultStatus.SUCCESS)) is not True and \
+        z3.Not(I.truth(I.models.equals(I, st, enums.ResultStatus.SUCCESS)))
+
+
+ITEM_V = ('where', ('obj', 'kmip.core.messages.messages.ResponseBatchItem',
+          {'operation': ('oneof', V(('enum', 'kmip.core.enums.Operation')), 'none'),
+           'result_status': V(('enum', 'kmip.core.enums.ResultStatus')),
            'result_reason': V(('enum', 'kmip.core.enums.ResultReason')), 'result_message': V('str'),
-           'response_payload': ATTR_PAYLOADS})
+           'response_payload': ATTR_PAYLOADS}), _operation_echoed_on_success)
 c = contract(K + "_send_and_receive_message", variant="for-send-request-payload").props('C19')
 c.args(self='opaque', request='opaque')
 c.effect(lambda P, loc: P.event('client.send', loc['request']))
@@ -181,6 +194,15 @@ def _failure_is_reported_exactly(ev, outcome, exc, path, I):
     if outcome == 'return':
         if path.ghost.get('results', {}).get(SRM) is None:
             return "a payload is returned although nothing was received"
+    resp0 = path.ghost.get('results', {}).get(SRM)
+    if resp0 is not None and len(resp0.fields['batch_items']) == 1:
+        from kmip.core import enums
+        st = resp0.fields['batch_items'][0].fields['result_status'].fields['value']
+        ok = I.truth(I.models.equals(I, st, enums.ResultStatus.SUCCESS))
+        failed = ok is False or (ok is not True and path.is_valid(z3.Not(ok)))
+        if failed and not (outcome == 'raise' and exc is not None and exc.cls.__name__ == 'OperationFailure'):
+            return ("an unsuccessful response is not reported as OperationFailure (%s)"
+                    % (exc.cls.__name__ if exc is not None else outcome))
     if outcome == 'raise' and exc is not None and exc.cls.__name__ == 'OperationFailure':
         resp = path.ghost.get('results', {}).get(SRM)
         if resp is None:
